@@ -203,9 +203,24 @@ def _session_reads(ctx, res):
                 mid = rng.choice([1, 255, 256, 0x1234, 65535])
                 hdr_extra = dict(dup=bool(rng.randrange(2)) if q else False, retain=bool(rng.randrange(2)))
                 pk.append(publish_pkt(rng.choice(topics), body, q, mid=mid, **hdr_extra))
-            lines = _prefix(3, ver, 'connected') + ['recv 0 ' + hx(b''.join(pk))]
+            # delivery: the whole stream in one segment; or every byte of each fixed header (type byte and each byte of the
+            # remaining-length field) in a segment of its own; or cut at random places
+            pre = _prefix(3, ver, 'connected')
+            mode = rep % 3
+            if mode == 0:
+                chunks = [b''.join(pk)]
+            elif mode == 1:
+                chunks = []
+                for b in pk:
+                    k = min(6, len(b))
+                    chunks += [b[i:i + 1] for i in range(k)] + ([b[k:]] if len(b) > k else [])
+            else:
+                stream = b''.join(pk)
+                cuts = sorted({rng.randrange(1, len(stream)) for _ in range(rng.randrange(1, 6))}) if len(stream) > 1 else []
+                chunks = [stream[i:j] for i, j in zip([0] + cuts, cuts + [len(stream)])]
+            lines = pre + ['recv 0 ' + hx(c) for c in chunks if c]
             trace = realworld.run_scenario(lines)
-            obs = trace[-1][1]
+            obs = [o for step in trace[len(pre):] for o in step[1]]
             got = [o for o in obs if o.startswith('pub ')]
             acks = [o.split()[2] for o in obs if o.startswith('w ')]
             want, wacks = [], []
@@ -438,6 +453,33 @@ def c03(ctx):
                             pos = [0] + list(c) + [len(sb)]
                             sc = pre + ['recv 0 %s' % hx(sb[a:b]) for a, b in zip(pos, pos[1:])]
                             cases.append((sc, ref, len(pre), [hx(p) for p in pk]))
+        # a full window with messages held back: what an acknowledgement releases must go out at the same point of the stream whether
+        # the packets that follow it arrive in the same segment or not
+        for profile in (3, 2):
+            for ver in ('311', '31'):
+                for win in (1, 2):
+                    pre = ['factory %d' % profile, 'build a0', 'sethandlers 0 7', 'connect 0 %s 0 %s 0' % (s_tok('cli'), ver), 'recv 0 20020000',
+                           'setwin 0 %d' % win] + ['publish 0 %s b:5%d %d 0' % (s_tok('h%d' % i), i, (1, 2, 1, 0, 1)[i]) for i in range(5)]
+                    inbound = [publish_pkt('t', b'x', 1, mid=10), publish_pkt('q', b'yz', 2, mid=11), ack(0x62, 11)] if profile == 3 else [pkt(0xD0)]
+                    streams = [[ack(0x40, 1), inbound[0], ack(0x40, 2)], [ack(0x40, 1), ack(0x50, 2), ack(0x70, 2), ack(0x40, 3)],
+                               [ack(0x40, 1), ack(0x50, 2), inbound[-1], ack(0x70, 2)], [ack(0x50, 2), ack(0x40, 1), ack(0x40, 3), ack(0x40, 4)]]
+                    if ctx['tier'] == 'quick' and (ver == '31' or profile == 2):
+                        streams = streams[:2]
+                    for pk in streams:
+                        sb = b''.join(pk)
+                        ref = pre + ['recv 0 %s' % hx(p) for p in pk]
+                        bounds = []
+                        o = 0
+                        for p_ in pk[:-1]:
+                            o += len(p_); bounds.append(o)
+                        # every subset of the packet boundaries (coalescing), plus one cut inside each packet
+                        for mask in range(1 << len(bounds)):
+                            c = [b for i, b in enumerate(bounds) if mask >> i & 1]
+                            pos = [0] + c + [len(sb)]
+                            sc = pre + ['recv 0 %s' % hx(sb[a:b]) for a, b in zip(pos, pos[1:])]
+                            cases.append((sc, ref, len(pre), [hx(p) for p in pk]))
+                        pos = [0] + sorted(set(b - 1 for b in bounds + [len(sb)])) + [len(sb)]
+                        cases.append((pre + ['recv 0 %s' % hx(sb[a:b]) for a, b in zip(pos, pos[1:])], ref, len(pre), [hx(p) for p in pk]))
         cases += _c03_multi(ctx, rng)
     ref_cache = {}
     split_queries = []      # (scenario, step index, buffer hex, real frames of that step, real buffer after)
